@@ -414,4 +414,88 @@ example : (LSeq.limitTo 2 ⟨[int 1, int 2, int 3], none⟩) = ⟨[int 1, int 2]
 example : hashable (convertInput (list [list [int 1], dict [(str ['a'], list [])]])) = true := by rfl
 example : hashable (list [list [int 1]]) = false := by rfl
 
+
+/-! ### yaql.convertOutputData off: the run-time object is handed out -/
+
+theorem finalise_raw (opts : Opts) (h : opts.convertOutput = false) (o : Obj) : finalise opts o = rawOut opts o := by
+  simp [finalise, h]
+
+/-- finished data is handed out untouched: a tuple stays a tuple whatever `convertTuplesToLists` says -/
+theorem rawOut_val (opts : Opts) (v : Value) : rawOut opts (.val v) = .ok v := by
+  simp [rawOut]
+
+/-- a lazy result is what the host gets when it consumes it; a StopIteration met on the way reaches the host wrapped
+    (only `evaluate()` unwraps it), every other exception as it is -/
+theorem rawOut_lazy (opts : Opts) (s : LSeq) :
+    rawOut opts (.lazy s) = (match s.err with
+      | none => .ok (iter s.items)
+      | some .stopIteration => .error .wrappedStop
+      | some e => .error e) := by
+  simp only [rawOut, hostConsumes]
+  cases s.err with
+  | none => rfl
+  | some e => cases e <;> rfl
+
+/-- no limiter is put around a raw result -/
+theorem rawOut_lazy_unlimited (opts : Opts) (n : Nat) (s : LSeq) :
+    rawOut { opts with limit := some n } (.lazy s) = rawOut opts (.lazy s) := by
+  simp [rawOut]
+
+/-! ### the flags of create_context -/
+
+/-- `group_by_agg_fallback` off: an aggregator that fails on the list of values of the first group is not retried in the
+    pre-1.1.1 style - its exception is the result -/
+theorem groupBy_no_fallback (agg : Lam) (k : Value) (vs : VL) (rest : List (Value × VL)) (e : Err)
+    (hv : hasLazyL vs = false) (he : agg.eval (list vs) = .error e) :
+    groupAggM agg none false ((k, vs) :: rest) = ⟨[], some e⟩ := by
+  simp only [groupAggM, hv, he]
+  by_cases h : (e == .noMethod || e == .noFunction || e == .index) = true
+  · simp [h]
+  · simp [h]
+
+/-- ... on, the aggregator gets the pair `[key, values]` and its two-element result is the row -/
+theorem groupBy_fallback (agg : Lam) (k r : Value) (vs : VL) (rest : List (Value × VL)) (e : Err)
+    (hv : hasLazyL vs = false) (he : agg.eval (list vs) = .error e)
+    (hcls : (e == .noMethod || e == .noFunction || e == .index) = true)
+    (hr : agg.eval (tuple [k, list vs]) = .ok r) (h2 : pyLen? r = some 2) :
+    (groupAggM agg none true ((k, vs) :: rest)).items = r :: (groupAggM agg (some e) true rest).items := by
+  simp [groupAggM, hv, he, hcls, hr, h2]
+
+/-- `no_sets`: the set methods do not exist, whatever the receiver -/
+theorem noSets_methods (opts : Opts) (h : opts.noSets = true) (o : Obj) (vs : VL) :
+    runOp opts .toSet o = .error .unknownMethod ∧ runOp opts (.union vs) o = .error .unknownMethod ∧
+    runOp opts (.add vs) o = .error .unknownMethod ∧ runOp opts (.remove vs) o = .error .unknownMethod ∧
+    runOp opts .setFn o = .error .unknownFunction := by
+  simp [runOp, h, noSetsErr, Op.needsSets]
+
+/-- ... and an unknown function written in front of the stages is met before any of them runs (after the binder of
+    `let(..) -> ..`, which is evaluated first) -/
+theorem noSets_function_first (opts : Opts) (h : opts.noSets = true) (binder : Option Op) (ops : List Op) (data : Value)
+    (root : Obj) (hr : rootObj opts binder data = .ok root)
+    (hf : ops.any Op.functionStyleSet = true) : runStages opts binder ops data = .error .unknownFunction := by
+  simp [runStages, h, hf, hr, bind, Except.bind]
+
+/-- with the set functions registered nothing changes: the flag is only looked at when it is on -/
+theorem noSets_off (opts : Opts) (h : opts.noSets = false) (op : Op) (o : Obj) : runOp opts op o = runOpCore opts op o := by
+  simp [runOp, h]
+
+/-- the seeded demo of C13-12: `[[a, 1], [b, 2], [c, 1]].groupBy($[1], $[0], [$[0], $[1].sum()])` (legacy-style aggregator) -/
+example : runPipeLet {} none [.groupBy (.index .arg 1) (some (.index .arg 0)) (some (.pair (.index .arg 0) (.sum (.index .arg 1))))]
+    (list [list [str ['a'], int 1], list [str ['b'], int 2], list [str ['c'], int 1]])
+    = .ok (list [list [int 1, str ['a', 'c']], list [int 2, str ['b']]]) := by rfl
+/-- ... in a context made with `group_by_agg_fallback=False` the first failure is the outcome -/
+example : (runPipeLet { aggFallback := false } none
+    [.groupBy (.index .arg 1) (some (.index .arg 0)) (some (.pair (.index .arg 0) (.sum (.index .arg 1))))]
+    (list [list [str ['a'], int 1], list [str ['b'], int 2], list [str ['c'], int 1]])).toOption = none := by rfl
+/-- raw output: `[3, 1].select($ * 2)` is lazy, `[3, 1].toList()` a tuple, `[3, 1].insert(0, 0)` a list -/
+example : runPipeLet { convertOutput := false } none [.select (.mul .arg 2)] (list [int 3, int 1]) = .ok (iter [int 6, int 2]) := by rfl
+example : runPipeLet { convertOutput := false } none [.toList] (list [int 3, int 1]) = .ok (tuple [int 3, int 1]) := by rfl
+example : runPipeLet { convertOutput := false } none [.insert 0 (int 0)] (list [int 3]) = .ok (list [int 0, int 3]) := by rfl
+/-- `[[]].select($.first())`: StopIteration from `evaluate()`, the wrapper when the host consumes the raw result -/
+example : runPipeLet {} none [.select (.first .arg none)] (list [list []]) = .error .stopIteration := by rfl
+example : runPipeLet { convertOutput := false } none [.select (.first .arg none)] (list [list []]) = .error .wrappedStop := by rfl
+/-- `no_sets`: `$.toSet()` / `isSet($.where(..))` -/
+example : runPipeLet { noSets := true } none [.toSet] (list [int 1]) = .error .unknownMethod := by rfl
+example : runPipeLet { noSets := true } none [.where_ (.first .arg none), .isSet] (list [list []]) = .error .unknownFunction := by rfl
+
 end Yaql.Props.C13Opts
